@@ -333,7 +333,7 @@ def datetime_cases(tier):
 
 
 def pattern_cases(tier):
-    depth = 4 if tier == "thorough" else 3
+    depth = 5 if tier == "thorough" else 4
     cases = []
     for n in range(1, depth + 1):
         for tokens in itertools.product(GLOB_TOKENS, repeat=n):
@@ -346,7 +346,7 @@ def pattern_cases(tier):
 
 
 def regex_cases(tier):
-    depth = 4 if tier == "thorough" else 3
+    depth = 4
     cases = []
     for n in range(1, depth + 1):
         for tokens in itertools.product(RX_TOKENS, repeat=n):
@@ -398,7 +398,7 @@ def run(ctx):
     ctx.bound = {
         "declarations per type": counts,
         "integer length sweep": "every length declaration over {k, a...b, ...b, a...} with 0<=a<=b<=5 plus two 2-item lengths, and fixed widths 1..5, against every integer whose text has <= %d characters" % (6 if tier == "thorough" else 5),
-        "glob / regex depth": 4 if tier == "thorough" else 3,
+        "glob / regex depth": "glob up to %d tokens, regex up to 4 tokens" % (5 if tier == "thorough" else 4),
         "cells": "generated from the rule (boundaries, grids) plus single mutations; Pattern/RegEx: all strings over {a,B,c} up to length 4",
     }
     ctx.rule = ("a case is one declaration (type, format preset, rule structure, length) with its cell list; every cell is validated on the directly "
